@@ -132,7 +132,8 @@ func (e *Exec) encodeSnapshot(t types.Type, v Value, n int) Slice {
 func (e *Exec) bencodeMarshalAny(v Value) Slice {
 	it, ok := v.(Iface)
 	if !ok || it.t == nil {
-		panic(e.unsupported("bencode.Marshal of nil"))
+		// as the real encoder: a nil interface encodes to nothing, without an error
+		return Slice{}
 	}
 	switch u := it.t.Underlying().(type) {
 	case *types.Basic:
